@@ -1,8 +1,86 @@
 (* C12 — property theorems only.  Each is closed by [exact]; see C12/Proofs*.v. *)
-From Coq Require Import List ZArith Arith Bool.
-From VV Require Import Lib.Base C12.Model C12.Rst C12.Check C12.Proofs.
+From Coq Require Import List ZArith NArith Arith Bool Sorted.
+From VV Require Import Lib.Base Lib.Pyslice C09.Model C12.Model C12.Rst C12.Check
+  C12.Proofs C12.ProofsRows C12.ProofsTab C12.ProofsRst.
 Import ListNotations.
 
-Theorem C12_mark_failed : forall v, has_mark (render_table RFailed v) = negb (verdict RFailed).
-Proof. exact mark_failed. Qed.
-Print Assumptions C12_mark_failed.
+(* every kind of result, every non-silent verbosity: the rendering (TextTemplates and
+   TableTemplates of table_repr) carries a KO text or a true highlight iff the result is false *)
+Theorem C12_mark_iff_false :
+  forall r v, result_wf r -> v <> Silent -> has_mark (render_table r v) = negb (verdict r).
+Proof. exact mark_iff_false. Qed.
+Print Assumptions C12_mark_iff_false.
+
+(* FullTable / Full representers render every kind but the two corrections as the Table one *)
+Theorem C12_render_full_other :
+  forall rep r v, (forall b, r <> RBonf b) -> (forall b, r <> RHolm b) ->
+  render rep r v = render_table r v.
+Proof. exact render_full_other. Qed.
+Print Assumptions C12_render_full_other.
+
+(* ... and a correction as itself followed by its first test: marked iff the correction is false
+   or the first test, rendered at the level the code chooses, is marked *)
+Theorem C12_mark_full_correction :
+  forall rep r b v, rep <> RepTable -> correction r = Some b -> result_wf r -> v <> Silent ->
+  has_mark (render rep r v)
+  = negb (b_verdict b)
+    || has_mark (render_table (RStudent (b_first b)) (first_verb (b_verdict b) v)).
+Proof. exact mark_full_correction. Qed.
+Print Assumptions C12_mark_full_correction.
+
+(* detailed tables (equal, approx-equal, Student): row i is bin i with its labels, reference,
+   values, errors, t and oracle; its highlighted cells are the failed oracles *)
+Theorem C12_full_table_rows :
+  forall r i, dres_shape r -> i < d_nb r ->
+  row_at (full_table r) i = bin_row r i /\ existsb snd (bin_row r i) = bin_fails r i.
+Proof. intros r i S H. split; [now apply full_table_rows | apply bin_row_highlighted]. Qed.
+Print Assumptions C12_full_table_rows.
+
+(* intermediate Student table: its rows are exactly the failing bins, in order, each with its own cells *)
+Theorem C12_highlighted_rows_are_failing_bins :
+  forall r, dres_wf r ->
+  table_wf (length (failing_bins r)) (interm_table r)
+  /\ StronglySorted lt (failing_bins r)
+  /\ (forall i, In i (failing_bins r) <-> i < d_nb r /\ bin_fails r i = true)
+  /\ (forall k, k < length (failing_bins r) ->
+        row_at (interm_table r) k = bin_row r (nth k (failing_bins r) 0)).
+Proof.
+  intros r W. split; [now apply interm_table_wf|].
+  destruct (failing_bins_spec r W) as [S I]. split; [exact S|]. split; [exact I|].
+  intros k Hk. now apply interm_table_rows.
+Qed.
+Print Assumptions C12_highlighted_rows_are_failing_bins.
+
+(* slicing: each column of (element, flag) pairs of the result is the slice of that column *)
+Theorem C12_getitem_alignment :
+  forall t idx t', aligned t -> tt_getitem t idx = Ok t' ->
+  aligned t'
+  /\ paired t' = map (slice_nd (t_shape t) (norm_idx (t_shape t) idx)) (paired t)
+  /\ t_headers t' = t_headers t.
+Proof. exact getitem_alignment. Qed.
+Print Assumptions C12_getitem_alignment.
+
+(* joining any number of tables appends the (element, flag) pairs column by column *)
+Theorem C12_join_alignment :
+  forall others t t', aligned t -> Forall aligned others -> tt_join t others = Ok t' ->
+  aligned t'
+  /\ paired t' = fold_left (fun p o => map2 (@app (cell * bool)) p (paired o)) others (paired t)
+  /\ t_headers t' = t_headers t.
+Proof. exact join_alignment. Qed.
+Print Assumptions C12_join_alignment.
+
+(* any sequence of slicings and joinings keeps columns and highlights aligned *)
+Theorem C12_slice_join_alignment :
+  forall ops t t', aligned t -> Forall top_aligned ops -> run_tops t ops = Ok t' ->
+  aligned t' /\ t_headers t' = t_headers t.
+Proof. exact slice_join_alignment. Qed.
+Print Assumptions C12_slice_join_alignment.
+
+(* the table written by tabularize reads back as the stripped headers and cells with their flags *)
+Theorem C12_table_roundtrip :
+  forall indent headers rows,
+  headers <> [] -> Forall header_ok headers -> Forall (row_ok (length headers)) rows ->
+  parse_simple_table indent (tabularize headers (map (map printed) rows) indent)
+  = Some (map strip headers, map (map readback) rows).
+Proof. exact table_roundtrip. Qed.
+Print Assumptions C12_table_roundtrip.
